@@ -59,6 +59,32 @@ CHECKS += [
      "note": "PARTIAL: (1) the reference's schema IR is dumped from the real kernel, so type resolution is shared with the generator (not re-derived independently); (2) the TL2 half of the property (varlen sizes, presence masks, bit arrays, counted arrays, dictionaries) is carried by the TL2 model of C03/C13 and the primitive layouts by C33, not by this check; (3) canonicity theorem excludes map-backed dictionaries. Known finding F6 (shared with C01). No axioms."},
 ]
 
+CHECKS += [
+    {"id": "C23",
+     "technique": "Coq proof over a model of canonicalForm / CRC32 / the tag rule on the TL1 AST + AST dump translator (overlay in internal/tlast) + correspondence with the real parser and Crc32()",
+     "text": "Proved for all ASTs: explicit tags verbatim; implicit tag = crc32(canon c) (CRC-32/IEEE defined bitwise in Coq, checked against the repository's test vectors and builtin tags); canon has no braces, is one line, single spaces, `[ ... ]`; arithmetic replaced by its value outside brackets; bare-marker rule. Model compared with Go on all repository schemas and ~1500 random combinators in 6 layout/syntax variants each; oracle recomputes CRCs with zlib and checks tag stability across variants.",
+     "note": "Layout independence of the AST is established by the correspondence (lexer/parser are modelled in family Lex, not here). Arithmetic inside `[ ]` is not evaluated by the code: refuted theorem + known finding F18. The AST dump harness is trusted. No axioms."},
+    {"id": "C21",
+     "technique": "Coq proof (partial: verified inverse parser for the type-expression sub-grammar, injectivity of names/numbers/tags) + correspondence of the printer model with String() + Go-side parse-print-parse oracle",
+     "text": "Model of Combinator.String()/TL.String() equals Go on every parsed repository and random AST; a verified parser inverts the printer on every well-formed type reference, name, arithmetic expression and 8-digit tag; the whole-schema round trip is checked on the real parser (dump equality after parse-print-parse, print idempotence) on ~6600 combinators per run.",
+     "note": "PARTIAL: no Gallina parser for whole combinators/files (the statement parse1(print1 a)=a is proved only for the expression sub-grammar). Known finding F5 (explicit #00000000 dropped) recorded as a refuted theorem. No axioms."},
+    {"id": "C25",
+     "technique": "Coq proof (partial) over a model of canonicalFormWithTag / the listing + correspondence with the real `tl2gen --language=canonical` output + re-parse of every listing line by the real parser",
+     "text": "Proved: one line per listed combinator (+5 builtin lines); a verified head parser recovers annotations, name, effective tag and template arguments from a line; the tag is recomputable from the line. The model's listing equals the bytes written by a freshly built tl2gen for repository and random schemas; every line, terminated with `;`, is re-parsed by the real parser and compared with the input AST.",
+     "note": "PARTIAL: fidelity of the field/result part is REFUTED (bracket-free spelling, `!` dropped): known finding F12; proved only for the head. At most 12 annotations per combinator assumed. No axioms."},
+]
+
+CHECKS += [
+    {"id": "C16",
+     "technique": "Coq proof over an executable model of OutDir.Write / Gen2.WriteToDir on a file-system tree (all trees, generated sets, histories) + T-const (marker and package names) + correspondence corr:C16:fs (extracted model vs the real code on temp dirs and vs the real tl2gen/tlgen binaries) + property oracle on the implementation's own tree dumps",
+     "text": "After every successful generation the outdir holds exactly the generated files (unchanged ones keep their mtime, stale ones and empty directories are gone, legacy cpp spares *.o); a non-empty outdir without the marker is refused untouched; whatever the outcome nothing outside the outdir changes except files addressed through ../; holds along every history of generations (induction over the list of generations). ~1100 random histories per quick run through the real OutDir.Write/WriteToDir + 10 end-to-end scenarios with the real binaries.",
+     "note": "Regular files and directories only (no symlinks, permissions, disk errors); the worker pool is modelled sequentially and order-independence is proved (C15); after an I/O failure only the verdict and 'outside untouched' are compared; runtime files addressed via ../ are always rewritten (theorem). Known finding F20 (deadlock crash on >= NumCPU write errors). No axioms."},
+    {"id": "C15",
+     "technique": "Coq proofs of the three order-erasing mechanisms (WalkDeterministic, collect-then-sort with unique keys plus a refuted variant, OutDir.Write order independence) + correspondence corr:C15:walk + byte comparison of repeated runs of the real generators (GOMAXPROCS 1/2/16, shuffled inputs, file vs directory arguments)",
+     "text": "The input file list, sorted emission and the written tree do not depend on enumeration or collection order (proved for all inputs, all permutations); tl2gen (go split/nosplit/tl2, php, tlo, canonical, tljson.html, rust) and tlgen (cpp, php) produce byte-identical output across repeated runs with different GOMAXPROCS and argument orders.",
+     "note": "PARTIAL: the Go scheduler and map iteration inside the generators cannot be modelled; they are observed (repeated runs), not proved. The model treats them as an arbitrary permutation erased by the proved mechanisms. No axioms."},
+]
+
 _claimed = {c["id"] for c in CHECKS}
 _reasons = {
     "C32": "PHP serializers: no PHP/KPHP interpreter exists in the sandbox and nothing can be installed, so generated PHP cannot be executed; neither a correspondence check nor a failing-input search can exist (DESIGN.md section 8)",
